@@ -448,9 +448,13 @@ Qed.
 
 Theorem Inv_step s o s' w : Inv s -> exec s o = Ok (s', w) -> Inv s'.
 Proof.
-  intros HI H. destruct o as [t|i|i t|i t|t|i f| |v|f|s0 r|o|r|m|m| ]; cbn [exec_op] in H.
+  intros HI H. destruct o as [t|i|i|i t|i t|t|i f| |v|f|s0 r|o|r|m|m| ]; cbn [exec_op] in H.
   - (* ReadRecord *) injection H as <- _. apply Inv_set_line. exact HI.
   - (* GetField *)
+    destruct (eval_idx rx all_matches s i) as [[s0 k]| | |] eqn:E0; cbn [rbind] in H; try discriminate.
+    destruct (getf s0 k) as [[[s1 f] t]| | |] eqn:E1; cbn [rbind] in H; try discriminate.
+    injection H as <- _. exact (Inv_get_field _ _ _ _ _ (Inv_eval_idx _ _ _ _ HI E0) E1).
+  - (* TypeOf *)
     destruct (eval_idx rx all_matches s i) as [[s0 k]| | |] eqn:E0; cbn [rbind] in H; try discriminate.
     destruct (getf s0 k) as [[[s1 f] t]| | |] eqn:E1; cbn [rbind] in H; try discriminate.
     injection H as <- _. exact (Inv_get_field _ _ _ _ _ (Inv_eval_idx _ _ _ _ HI E0) E1).
